@@ -914,6 +914,56 @@ def obs_json(obs):
             'closed': obs['closed'], 'send_error': obs.get('send_error')}
 
 
+def large_reply_probe(run, sizes=(200000, 6000000, 24000000)):
+    """The client receives the handler's reply - all of it, whatever its size and however late the client starts to read."""
+    from hl7apy.mllp import MLLPServer, AbstractHandler
+    done = 0
+    for size in sizes:
+        body = 'ACK|%d|' % size + 'x' * size
+
+        class Big(AbstractHandler):
+            def reply(self):
+                return body
+        try:
+            srv = MLLPServer(HOST, 0, {'ADT^A01': (Big,)}, timeout=SERVER_TIMEOUT)
+        except OSError as e:
+            run.note('large reply probe: no server (%r)' % (e,))
+            return done
+        srv.daemon_threads = True
+        srv.handle_error = lambda request, client_address: None
+        th = threading.Thread(target=srv.serve_forever, kwargs={'poll_interval': 0.05})
+        th.daemon = True
+        th.start()
+        got, closed, infra = b'', False, None
+        try:
+            c = socket.create_connection((HOST, srv.server_address[1]), timeout=5)
+            c.sendall(b'\x0bMSH|^~\\&|A|B|C|D|20200101||ADT^A01|1|P|2.5\r\x1c\r')
+            time.sleep(0.4)        # a peer that does not drain at once
+            c.settimeout(20)
+            buf = []
+            while True:
+                d = c.recv(1 << 20)
+                if not d:
+                    closed = True
+                    break
+                buf.append(d)
+            got = b''.join(buf)
+            c.close()
+        except OSError as e:
+            infra = repr(e)
+        finally:
+            srv.shutdown()
+            srv.server_close()
+        if infra is not None and not got:
+            run.note('large reply probe (%d bytes): infrastructure (%s), not judged' % (size, infra))
+            continue
+        done += 1
+        if got != body.encode('utf-8') or not closed:
+            run.fail('reply-truncated', 'the client did not receive the whole reply of the handler', reply_bytes=len(body),
+                     received_bytes=len(got), closed=closed, family='large-reply', infra=infra)
+    return done
+
+
 def main(argv=None):
     run = Run('C16', argv)
     RUN[0] = run
@@ -1039,6 +1089,8 @@ def main(argv=None):
             % (evaluated, ev_rx, ev_fr, len(run.disagreements)))
     for s in servers.values():
         s.stop()
+    n_large = large_reply_probe(run)
+    run.log('large replies (0.2, 6 and 24 MB to a client that starts reading late): %d judged' % n_large)
 
     # ---- coverage
     nontrivial = len({(s.family, s.server, s.cuts, len(s.stream), s.mode) for s, o in observed
@@ -1120,6 +1172,8 @@ def replay(run):
                 run.disagree('serve', observed=obs_json(o), **spec.data())
         for s in servers.values():
             s.stop()
+    elif inp.get('family') == 'large-reply':
+        large_reply_probe(run, sizes=(int(inp['reply_bytes']),))
     elif 'er7' in inp and 'text' in inp:
         framing_cases(run)
     elif 'input' in inp:
